@@ -1120,7 +1120,14 @@ fn expected_list_index(x: &T, k: &T) -> Option<T> {
             None => ix.as_ref().map(|v| (**v).clone()),
         },
         (T::Inter(ms), T::StrLit(_)) => {
-            if !ms.iter().all(|m| matches!(m, T::Obj(_, _) | T::Inter(_) | T::Union(_))) {
+            fn object_like(t: &T) -> bool {
+                match t {
+                    T::Obj(_, _) => true,
+                    T::Inter(ms) | T::Union(ms) => !ms.is_empty() && ms.iter().all(object_like),
+                    _ => false,
+                }
+            }
+            if !ms.iter().all(object_like) {
                 return None;
             }
             let mut parts = vec![];
